@@ -9,6 +9,8 @@
                    UPDATE (SQLTables!InsRow), the next designated row of an UPDATE or DELETE;
                    a constraint violation ends the statement with DiscardChanges (tables := snap)
      Fault         a storage error at the current row position: DiscardChanges (tables := snap)
+     SrcFault      the row source of a non-IGNORE INSERT / REPLACE fails at the current row position (a BEFORE
+                   trigger's SIGNAL, a run-time error of INSERT .. SELECT): DiscardChanges (tables := snap)
      Complete      no rows left: StatementComplete publishes the working copy
    Mech = "snapshot"    one StatementBegin per statement (plan.TableEditorIter);
    Mech = "checkpoint"  IGNORE statements begin / complete once PER ROW
@@ -115,6 +117,14 @@ Fault ==
   /\ run.i <= NSteps(run)
   /\ Discard("fault", "fault")
 
+\* the ROW SOURCE of a non-IGNORE INSERT / REPLACE fails before it delivers row i (a BEFORE trigger's SIGNAL, a
+\* run-time error of INSERT .. SELECT): the statement fails, DiscardChanges
+SrcFault ==
+  /\ run.on
+  /\ run.stmt.k = "insert" /\ run.stmt.mode # "ignore"
+  /\ run.i <= NSteps(run)
+  /\ Discard("src", "fault")
+
 Complete ==
   /\ run.on
   /\ run.i > NSteps(run)
@@ -137,7 +147,7 @@ Atomic ==
   /\ run' = run
   /\ step' = step + 1
 
-NextF == (\E stmt \in Stmts : Begin(stmt)) \/ Row \/ Fault \/ Complete \/ Atomic
+NextF == (\E stmt \in Stmts : Begin(stmt)) \/ Row \/ Fault \/ SrcFault \/ Complete \/ Atomic
 
 SpecF == InitF /\ [][NextF]_varsF
 
